@@ -48,10 +48,11 @@ def ctype : String → R CType
 def cenc : String → R CEnc
   | "none" => pure .none | "supported" => pure .supported | "unsupported" => pure .unsupported
   | "corrupt" => pure .corrupt | "bomb" => pure .bomb
+  | "atCap:gzip" => pure (.atCap .gzip) | "atCap:zstdSized" => pure (.atCap .zstdSized) | "atCap:zstdStream" => pure (.atCap .zstdStream)
   | s => throw s!"cenc {s}"
 
 def size : String → R Size
-  | "within" => pure .within | "oversize" => pure .oversize
+  | "within" => pure .within | "oversize" => pure .oversize | "atCap" => pure .atCap
   | s => throw s!"size {s}"
 
 def auth : String → R Auth
